@@ -315,7 +315,9 @@ def main():
     if tier not in ("quick", "thorough"): tier = "quick"
     try: seed = int(os.environ.get("VERIF_SEED", "1"))
     except ValueError: seed = 1
-    P = PROPS[prop]; fam = P["family"]
+    P = PROPS[prop]
+    fams = P.get("families") or [P["family"]]      # a property may be decided over several harness families (C19)
+    fam = fams[0]
     t0 = time.time()
     os.makedirs(CACHE, exist_ok=True)
     violations = []      # (replay payload, suffix)
@@ -347,47 +349,51 @@ def main():
         variants = [variants[0], variants[1 + seed % (len(variants) - 1)]]
     all_r = []; sums = []; harness_notes = []; env_error = False
     timeout = P.get("timeout", {}).get(tier, 1500 if tier == "quick" else 7200)
-    for variant in variants:
-        binp, how = build_harness(fam, variant)
-        if binp is None:
-            # the harness no longer compiles against the changed headers: the public API the property
-            # is stated over changed shape; nothing can be shown
-            violations.append((dict(kind="harness-build-failure", detail=how, variant=variant), " no-failing-input-found"))
-            continue
-        harness_notes.append("harness %s%s: %s" % (fam, (" " + variant) if variant else "", how))
-        if replay:
-            payload = json.load(open(replay))
-            lines = payload.get("lines", [])
-            r, s, raw = exec_lines(binp, lines, known_ids)
-            bad = [x for x in r if x["kind"] in ("VIOLATION", "SPECFAIL", "MISMATCH")]
-            for x in r: print("%s %s :: %s" % (x["kind"], x["why"], x["line"]))
-            print("replay: %d lines, %d failing" % (len(lines), len(bad)))
-            return 1 if bad else 0
-        # witnesses of recorded findings run first, so their KNOWN-FINDING line never depends on the generators
-        wl = [w for k in known for w in k.get("witness", [])]
-        if wl:
-            r, s_, raw = exec_lines(binp, wl, known_ids)
-            for y in r: y["variant"] = variant; y["bin"] = binp
-            all_r += r
-            if s_: sums.append(s_)
-        nsl = P.get("slices", {}).get(tier, NCPU)
-        base = ["--seed", str(seed), "--tier", tier, "--prop", prop]
-        args_list = [base + ["--slice", "%d/%d" % (k, nsl)] for k in range(nsl)]
-        res = run_pipelines(binp, args_list, known_ids, timeout)
-        for x in res:
-            r, s = parse_driver(x["out"])
-            if x["timed_out"]:
-                notes.append("slice %s timed out (not a verdict)" % x["args"][-1]); env_error = True; continue
-            if x["hrc"] != 0 or x["drc"] != 0 or s is None:
-                log("pipeline error: harness rc=%s driver rc=%s\n%s\n%s" % (x["hrc"], x["drc"], x["herr"], x["derr"]))
-                env_error = True
-                if s is None: continue
-            if "truncated_after_too_many_aborts" in x["herr"]:
-                notes.append("slice %s stopped after 40 aborted cases (each reported)" % x["args"][-1])
-            for y in r: y["variant"] = variant; y["bin"] = binp
-            all_r += r; sums.append(s)
-            m = re.search(r"alloc_faults_fired=(\d+)", x["herr"])
-            if m and int(m.group(1)): harness_notes.append("alloc faults fired: " + m.group(1))
+    for fam in fams:
+      for variant in variants:
+            binp, how = build_harness(fam, variant)
+            if binp is None:
+                # the harness no longer compiles against the changed headers: the public API the property
+                # is stated over changed shape; nothing can be shown
+                violations.append((dict(kind="harness-build-failure", detail=how, variant=variant), " no-failing-input-found"))
+                continue
+            harness_notes.append("harness %s%s: %s" % (fam, (" " + variant) if variant else "", how))
+            if replay:
+                payload = json.load(open(replay))
+                lines = payload.get("lines", [])
+                ops = FAMILIES[fam].get("ops")
+                if len(fams) > 1 and ops and lines and not any(lines[0].startswith(o) for o in ops):
+                    continue      # these lines belong to another family's harness
+                r, s, raw = exec_lines(binp, lines, known_ids)
+                bad = [x for x in r if x["kind"] in ("VIOLATION", "SPECFAIL", "MISMATCH")]
+                for x in r: print("%s %s :: %s" % (x["kind"], x["why"], x["line"]))
+                print("replay: %d lines, %d failing" % (len(lines), len(bad)))
+                return 1 if bad else 0
+            # witnesses of recorded findings run first, so their KNOWN-FINDING line never depends on the generators
+            wl = [w for k in known for w in k.get("witness", [])]
+            if wl:
+                r, s_, raw = exec_lines(binp, wl, known_ids)
+                for y in r: y["variant"] = variant; y["bin"] = binp
+                all_r += r
+                if s_: sums.append(s_)
+            nsl = P.get("slices_by_family", {}).get(fam, P.get("slices", {})).get(tier, NCPU)
+            base = ["--seed", str(seed), "--tier", tier, "--prop", prop]
+            args_list = [base + ["--slice", "%d/%d" % (k, nsl)] for k in range(nsl)]
+            res = run_pipelines(binp, args_list, known_ids, timeout)
+            for x in res:
+                r, s = parse_driver(x["out"])
+                if x["timed_out"]:
+                    notes.append("slice %s timed out (not a verdict)" % x["args"][-1]); env_error = True; continue
+                if x["hrc"] != 0 or x["drc"] != 0 or s is None:
+                    log("pipeline error: harness rc=%s driver rc=%s\n%s\n%s" % (x["hrc"], x["drc"], x["herr"], x["derr"]))
+                    env_error = True
+                    if s is None: continue
+                if "truncated_after_too_many_aborts" in x["herr"]:
+                    notes.append("slice %s stopped after 40 aborted cases (each reported)" % x["args"][-1])
+                for y in r: y["variant"] = variant; y["bin"] = binp
+                all_r += r; sums.append(s)
+                m = re.search(r"alloc_faults_fired=(\d+)", x["herr"])
+                if m and int(m.group(1)): harness_notes.append("alloc faults fired: " + m.group(1))
     tot = merge_summaries(sums)
 
     # 5. classify
